@@ -5,6 +5,11 @@ explicit token hypotheses (`WFStubs`: no newline in any token, `Stub()` is
 `func NAME(`…), over the BYTES of that text (part 2); the signature text is an
 opaque token.  Part 3: the acceptors the driver runs on the real (formatted)
 output are sound for declarative statements, and accept the model's own text.
+Part 4: user text is transported verbatim — for all strings the lines of the
+model's text contain the `Stub()` text, directives, doc lines, package name,
+constraint lines and generated-by text character for character
+(`stub_tokens_verbatim`), and the acceptor `acceptVerbatim`, run on the real
+formatted file, compares every declaration with `Stub()` up to layout only.
 Validity, gofmt-stability, type identity and linkability of the formatted file
 are measured by the harness (go/format and go/types are not modelled).
 -/
@@ -769,5 +774,350 @@ theorem wfStubsB_sound (cfg : Config) (f : File) (h : wfStubsB cfg f = true) : W
 
 example : wfStubsB exStubCfg exTextFile = true := by decide
 example : wfStubsB exStubCfg exNewlineFile = false := by decide
+
+/-! ## 4. Verbatim transport of user text -/
+
+theorem squash_append (a b : Txt) : squash (a ++ b) = squash a ++ squash b := by
+  simp [squash]
+
+/-- Every character that is not layout survives squashing, with its multiplicity. -/
+theorem squash_count (t : Txt) (c : Char) (h : isLayout c = false) : (squash t).count c = t.count c := by
+  induction t with
+  | nil => rfl
+  | cons x xs ih =>
+    by_cases hx : isLayout x = true
+    · have hne : x ≠ c := by intro e; rw [e, h] at hx; cases hx
+      simp [squash, hx, hne] at ih ⊢
+      exact ih
+    · have hx' : isLayout x = false := by simpa using hx
+      simp [squash, hx', List.count_cons] at ih ⊢
+      rw [ih]
+
+theorem mem_squash (t : Txt) (c : Char) : c ∈ squash t ↔ c ∈ t ∧ isLayout c = false := by
+  simp [squash]
+
+theorem takeWhile_holds {α} (p : α → Bool) (l : List α) : ∀ x ∈ l.takeWhile p, p x = true := by
+  induction l with
+  | nil => intro x hx; simp at hx
+  | cons a as ih =>
+    intro x hx
+    simp only [List.takeWhile_cons] at hx
+    split at hx
+    · rename_i ha
+      rcases List.mem_cons.1 hx with rfl | h
+      · exact ha
+      · exact ih x h
+    · simp at hx
+
+/-- `Comment` copies its line: `// ` followed by the line, nothing but trailing
+white space removed. -/
+theorem commentText_verbatim (t : Txt) :
+    ∃ sp, (∀ c ∈ sp, isGoSpace c = true) ∧ '/' :: '/' :: ' ' :: t = commentText t ++ sp := by
+  unfold commentText trimRight
+  refine ⟨((('/' :: '/' :: ' ' :: t).reverse).takeWhile isGoSpace).reverse, ?_, ?_⟩
+  · intro c hc
+    exact takeWhile_holds _ _ c (List.mem_reverse.1 hc)
+  · have := List.takeWhile_append_dropWhile (p := isGoSpace) (l := ('/' :: '/' :: ' ' :: t).reverse)
+    have h2 := congrArg List.reverse this
+    simp only [List.reverse_append, List.reverse_reverse] at h2
+    exact h2.symm
+
+/-- The generated-code comment contains the tool name, or every word of the
+command line, as it was given. -/
+theorem generatedWarning_verbatim (cfg : Config) :
+    ∃ pre post, generatedWarning cfg = pre ++ (match cfg.argv with | none => cfg.name | some a => joinWith [' '] a) ++ post := by
+  unfold generatedWarning
+  cases cfg.argv with
+  | none => exact ⟨_, _, rfl⟩
+  | some a => exact ⟨"Code generated by command: ".toList, ". DO NOT EDIT.".toList, by simp⟩
+
+/-! paragraphs of the model's text -/
+
+theorem splitBlank_ne_nil (ls : List Txt) : splitBlank ls ≠ [] := by
+  cases ls with
+  | nil => simp [splitBlank]
+  | cons l ls =>
+    simp only [splitBlank]
+    split
+    · simp
+    · split <;> simp
+
+theorem splitBlank_last (a : List Txt) (ha : ∀ l ∈ a, l.isEmpty = false) : splitBlank a = [a] := by
+  induction a with
+  | nil => rfl
+  | cons l ls ih =>
+    simp only [splitBlank, ha l List.mem_cons_self, Bool.false_eq_true, if_false]
+    rw [ih (fun x hx => ha x (List.mem_cons_of_mem _ hx))]
+
+theorem splitBlank_block (a rest : List Txt) (ha : ∀ l ∈ a, l.isEmpty = false) :
+    splitBlank (a ++ [] :: rest) = a :: splitBlank rest := by
+  induction a with
+  | nil => simp [splitBlank]
+  | cons l ls ih =>
+    simp only [List.cons_append, splitBlank, ha l List.mem_cons_self, Bool.false_eq_true, if_false]
+    rw [ih (fun x hx => ha x (List.mem_cons_of_mem _ hx))]
+
+/-- The non-blank lines of one function: doc lines, directives, declaration. -/
+def fnBody (fn : Function) : List Txt := fn.doc.map commentText ++ pragmaLines fn ++ [fn.stub]
+
+theorem fnLines_body (fn : Function) : fnLines fn = [] :: fnBody fn := by
+  simp [fnLines, fnBody]
+
+theorem slashes_nonempty (l : Txt) (h : hasPrefix kwSlashes l = true) : l.isEmpty = false := by
+  cases l with
+  | nil => simp [hasPrefix, kwSlashes, stripPrefix] at h
+  | cons c cs => rfl
+
+theorem fnBody_slashes (fn : Function) :
+    ∀ l ∈ fn.doc.map commentText ++ pragmaLines fn, hasPrefix kwSlashes l = true := by
+  intro l hl
+  rcases List.mem_append.1 hl with h | h
+  · obtain ⟨d, _, rfl⟩ := List.mem_map.1 h
+    exact (facts_comment d).slashes
+  · obtain ⟨p, _, rfl⟩ := List.mem_map.1 h
+    exact (facts_pragma p.directive p.args).slashes
+
+theorem stub_facts (fn : Function) (h : WFStubFn fn) :
+    hasPrefix kwFunc fn.stub = true ∧ hasPrefix kwSlashes fn.stub = false ∧ fn.stub.isEmpty = false := by
+  obtain ⟨rest, hs⟩ := h.stub
+  rw [hs]
+  refine ⟨?_, ?_, ?_⟩
+  · simp [hasPrefix, List.append_assoc, stripPrefix_append]
+  · simp [hasPrefix, kwFunc, kwSlashes, stripPrefix]
+  · simp [kwFunc]
+
+theorem fnBody_nonempty (fn : Function) (h : WFStubFn fn) : ∀ l ∈ fnBody fn, l.isEmpty = false := by
+  intro l hl
+  rcases List.mem_append.1 hl with h1 | h1
+  · exact slashes_nonempty l (fnBody_slashes fn l h1)
+  · rw [List.mem_singleton.1 h1]; exact (stub_facts fn h).2.2
+
+theorem splitBlank_fns (p : List Txt) (hp : ∀ l ∈ p, l.isEmpty = false) (fns : List Function)
+    (h : ∀ fn ∈ fns, WFStubFn fn) :
+    splitBlank (p ++ fns.flatMap fnLines) = p :: fns.map fnBody := by
+  induction fns generalizing p with
+  | nil => simpa using splitBlank_last p hp
+  | cons fn fns ih =>
+    rw [List.flatMap_cons, fnLines_body, List.cons_append, splitBlank_block p _ hp,
+      ih (fnBody fn) (fnBody_nonempty fn (h fn List.mem_cons_self)) (fun g hg => h g (List.mem_cons_of_mem _ hg))]
+    rfl
+
+theorem dropWhile_block (p : Txt → Bool) (a : List Txt) (y : Txt) (zs : List Txt)
+    (ha : ∀ x ∈ a, p x = true) (hy : p y = false) : (a ++ y :: zs).dropWhile p = y :: zs := by
+  induction a with
+  | nil => simp [hy]
+  | cons x xs ih =>
+    have hx := ha x List.mem_cons_self
+    simp [hx, ih (fun z hz => ha z (List.mem_cons_of_mem _ hz))]
+
+theorem dropWhile_all {α} (p : α → Bool) (a : List α) (ha : ∀ x ∈ a, p x = true) : a.dropWhile p = [] := by
+  induction a with
+  | nil => rfl
+  | cons x xs ih =>
+    simp [ha x List.mem_cons_self, ih (fun z hz => ha z (List.mem_cons_of_mem _ hz))]
+
+theorem declText_fnBody (fn : Function) (h : WFStubFn fn) : declText? (fnBody fn) = some (squash fn.stub) := by
+  unfold declText? fnBody
+  rw [dropWhile_block _ _ _ _ (fnBody_slashes fn) (stub_facts fn h).2.1]
+  simp [(stub_facts fn h).1]
+
+theorem declText_slashes (p : List Txt) (h : ∀ l ∈ p, hasPrefix kwSlashes l = true) : declText? p = none := by
+  unfold declText?
+  rw [dropWhile_all _ _ h]
+
+theorem declTexts_fns (fns : List Function) (h : ∀ fn ∈ fns, WFStubFn fn) :
+    (fns.map fnBody).filterMap declText? = fns.map (fun fn => squash fn.stub) := by
+  induction fns with
+  | nil => rfl
+  | cons fn fns ih =>
+    simp only [List.map_cons, List.filterMap_cons, declText_fnBody fn (h fn List.mem_cons_self)]
+    rw [ih (fun g hg => h g (List.mem_cons_of_mem _ hg))]
+
+theorem constraint_nonempty (c : Txt) (h : isConstraintLine c = true) : c.isEmpty = false :=
+  slashes_nonempty c (slashes_of_constraint c h)
+
+/-- The declarations read from the BYTES of the model's stub text, paragraph by
+paragraph: exactly the `Stub()` texts, in file order. -/
+theorem declTexts_stubLines (cfg : Config) (f : File) (h : WFStubs cfg f) :
+    declTexts (headerLines cfg f ++ f.functions.flatMap fnLines) = f.functions.map (fun fn => squash fn.stub) := by
+  have hw : ∀ l ∈ [commentText (generatedWarning cfg)], l.isEmpty = false := by
+    intro l hl; rw [List.mem_singleton.1 hl]; exact slashes_nonempty _ (facts_comment _).slashes
+  have hpk : ∀ l ∈ [kwPackage ++ cfg.pkg], l.isEmpty = false := by
+    intro l hl; rw [List.mem_singleton.1 hl]; simp [kwPackage]
+  have hW : declText? [commentText (generatedWarning cfg)] = none :=
+    declText_slashes _ (by intro l hl; rw [List.mem_singleton.1 hl]; exact (facts_comment _).slashes)
+  have hP : declText? [kwPackage ++ cfg.pkg] = none := by
+    simp [declText?, hasPrefix, kwPackage, kwSlashes, kwFunc, stripPrefix]
+  unfold declTexts headerLines
+  cases hc : f.hasConstraints with
+  | true =>
+    have hcs : ∀ l ∈ f.constraints, l.isEmpty = false := fun l hl => constraint_nonempty l (h.cons l hl).2
+    have hC : declText? f.constraints = none :=
+      declText_slashes _ (fun l hl => slashes_of_constraint l (h.cons l hl).2)
+    simp only [if_true, List.append_assoc, List.cons_append, List.nil_append]
+    rw [show commentText (generatedWarning cfg) :: [] :: (f.constraints ++ [] :: (kwPackage ++ cfg.pkg) :: f.functions.flatMap fnLines)
+        = [commentText (generatedWarning cfg)] ++ [] :: (f.constraints ++ [] :: ([kwPackage ++ cfg.pkg] ++ f.functions.flatMap fnLines)) from rfl,
+      splitBlank_block _ _ hw, splitBlank_block _ _ hcs, splitBlank_fns _ hpk _ h.fns]
+    simp only [List.filterMap_cons, hW, hC, hP, declTexts_fns _ h.fns]
+  | false =>
+    simp only [Bool.false_eq_true, if_false, List.cons_append, List.nil_append]
+    rw [show commentText (generatedWarning cfg) :: [] :: (kwPackage ++ cfg.pkg) :: f.functions.flatMap fnLines
+        = [commentText (generatedWarning cfg)] ++ [] :: ([kwPackage ++ cfg.pkg] ++ f.functions.flatMap fnLines) from rfl,
+      splitBlank_block _ _ hw, splitBlank_fns _ hpk _ h.fns]
+    simp only [List.filterMap_cons, hW, hP, declTexts_fns _ h.fns]
+
+
+/-- What `acceptVerbatim` judges on the real stub file: the text is a sequence of
+newline-terminated lines; the first is the generated-code comment with the tool
+name / command line as given; the paragraphs that are function declarations
+are — in file order, one per function — the `Stub()` texts of the file's
+functions, character for character except layout. -/
+def VerbatimOK (cfg : Config) (f : File) (out : Txt) : Prop :=
+  ∃ ls : List Txt, out = ls.flatMap (· ++ ['\n']) ∧ (∀ l ∈ ls, NoNL l) ∧
+    ls.head? = some (commentText (generatedWarning cfg)) ∧
+    declTexts ls = f.functions.map (fun fn => squash fn.stub)
+
+/-- **acceptVerbatim_sound.** -/
+theorem acceptVerbatim_sound (cfg : Config) (f : File) (out : Txt)
+    (h : acceptVerbatim cfg f out = "ok") : VerbatimOK cfg f out := by
+  unfold acceptVerbatim at h
+  split at h
+  · simp at h
+  · rename_i ls hls
+    obtain ⟨h1, h2⟩ := textLines?_spec out ls hls
+    split at h
+    · simp at h
+    · rename_i hg
+      split at h
+      · simp at h
+      · rename_i hd
+        exact ⟨ls, h1, h2, by simpa using hg, by simpa using hd⟩
+
+/-- **acceptVerbatim_model.** For every file satisfying the token hypotheses —
+whatever characters the signature, tags, names, tool name and command line are
+made of — the bytes of the model's stub text pass: the model copies them. -/
+theorem acceptVerbatim_model (cfg : Config) (f : File) (h : WFStubs cfg f) :
+    acceptVerbatim cfg f (render (printStubs cfg f)) = "ok" := by
+  unfold acceptVerbatim
+  rw [stub_text_lines cfg f h]
+  have h1 : (headerLines cfg f ++ f.functions.flatMap fnLines).head? = some (commentText (generatedWarning cfg)) := by
+    simp [headerLines]
+  simp [h1, declTexts_stubLines cfg f h]
+
+/-- **stub_text_verbatim.** -/
+theorem stub_text_verbatim (cfg : Config) (f : File) (h : WFStubs cfg f) :
+    VerbatimOK cfg f (render (printStubs cfg f)) :=
+  acceptVerbatim_sound cfg f _ (acceptVerbatim_model cfg f h)
+
+/-- **stub_tokens_verbatim.** For all strings (under the token hypotheses): the
+lines of the stub text are exactly known, and among them stand, character for
+character, the package clause, every constraint line, and for every function
+its `Stub()` text, `//go:` + directive + arguments for each pragma, and
+`// ` + doc line (trailing white space trimmed, `commentText_verbatim`) for each
+doc line; the lines starting with `func ` are exactly the `Stub()` texts. -/
+theorem stub_tokens_verbatim (cfg : Config) (f : File) (h : WFStubs cfg f) :
+    ∃ ls, textLines? (render (printStubs cfg f)) = some ls ∧
+      ls.head? = some (commentText (generatedWarning cfg)) ∧
+      (kwPackage ++ cfg.pkg) ∈ ls ∧
+      (f.hasConstraints = true → ∀ c ∈ f.constraints, c ∈ ls) ∧
+      (∀ fn ∈ f.functions, fn.stub ∈ ls ∧ (∀ d ∈ fn.doc, commentText d ∈ ls) ∧
+        (∀ p ∈ fn.pragmas, kwDirective ++ p.directive ++ p.args.flatMap (fun a => ' ' :: a) ∈ ls)) ∧
+      ls.filter (hasPrefix kwFunc) = f.functions.map (·.stub) := by
+  refine ⟨_, stub_text_lines cfg f h, by simp [headerLines], ?_, ?_, ?_, ?_⟩
+  · simp [headerLines]
+  · intro hc c hm
+    simp [headerLines, hc, hm]
+  · intro fn hfn
+    have hsub : ∀ l ∈ fnLines fn, l ∈ headerLines cfg f ++ f.functions.flatMap fnLines :=
+      fun l hl => List.mem_append_right _ (List.mem_flatMap.2 ⟨fn, hfn, hl⟩)
+    refine ⟨hsub _ (by simp [fnLines]), fun d hd => hsub _ ?_, fun p hp => hsub _ ?_⟩
+    · simp only [fnLines, List.mem_append, List.mem_map]
+      exact Or.inl (Or.inl (Or.inr ⟨d, hd, rfl⟩))
+    · simp only [fnLines, List.mem_append, pragmaLines, List.mem_map]
+      exact Or.inl (Or.inr ⟨p, hp, rfl⟩)
+  · rw [List.filter_append]
+    have hH : (headerLines cfg f).filter (hasPrefix kwFunc) = [] := by
+      apply List.filter_eq_nil_iff.2
+      intro l hl
+      simp only [headerLines, List.mem_append, List.mem_cons, List.not_mem_nil, or_false] at hl
+      have nf : ∀ x : Txt, stripPrefix kwFunc x = none → ¬ hasPrefix kwFunc x = true := by
+        intro x hx; simp [hasPrefix, hx]
+      rcases hl with (rfl | hc) | (rfl | rfl)
+      · exact nf _ (facts_comment _).nofunc
+      · split at hc
+        · rcases List.mem_cons.1 hc with rfl | hc
+          · exact nf _ rfl
+          · exact nf _ (facts_of_slashes l (slashes_of_constraint l (h.cons l hc).2)).1
+        · simp at hc
+      · exact nf _ rfl
+      · exact nf _ (by simp [kwFunc, kwPackage, stripPrefix])
+    rw [hH, List.nil_append]
+    have hF : ∀ fns : List Function, (∀ fn ∈ fns, WFStubFn fn) →
+        (fns.flatMap fnLines).filter (hasPrefix kwFunc) = fns.map (·.stub) := by
+      intro fns
+      induction fns with
+      | nil => intro _; rfl
+      | cons fn fns ih =>
+        intro hw
+        rw [List.flatMap_cons, List.filter_append, ih (fun g hg => hw g (List.mem_cons_of_mem _ hg)), fnLines_body]
+        have hb : (fnBody fn).filter (hasPrefix kwFunc) = [fn.stub] := by
+          unfold fnBody
+          rw [List.filter_append]
+          have h0 : (fn.doc.map commentText ++ pragmaLines fn).filter (hasPrefix kwFunc) = [] := by
+            apply List.filter_eq_nil_iff.2
+            intro l hl
+            have := (facts_of_slashes l (fnBody_slashes fn l hl)).1
+            simp [hasPrefix, this]
+          rw [h0]
+          simp [(stub_facts fn (hw fn List.mem_cons_self)).1]
+        have he : hasPrefix kwFunc ([] : Txt) = false := rfl
+        simp [he, hb]
+    exact hF _ h.fns
+
+/-! Non-vacuity, and the witness of seeded change C12-6 (the declaration used as a format string) -/
+
+/-- A function whose signature has struct tags with a fmt verb, both quoting
+characters, a backslash and comment markers; doc line and directive argument
+with fmt verbs. -/
+def exPercentFile : File :=
+  ⟨false, [], [],
+   [.fn (exStubFn "f" "(s struct{Lo uint32 \"dump:\\\"%08x\\\"\"; Hi uint32 \"a`b\\\\c//d/*e\"}) uint32"
+      ["f is 100% %d"] [⟨"linkname".toList, ["f".toList, "runtime.f%d".toList]⟩])]⟩
+
+theorem exPercentFile_wf : WFStubs exStubCfg exPercentFile := by
+  refine ⟨by decide, by decide, by decide, by decide, by decide, ?_⟩
+  intro fn hfn
+  simp only [exPercentFile, File.functions, List.filterMap_cons, List.filterMap_nil, List.mem_cons,
+    List.not_mem_nil, or_false] at hfn
+  subst hfn
+  exact ⟨by decide, by decide, by decide,
+    ⟨"s struct{Lo uint32 \"dump:\\\"%08x\\\"\"; Hi uint32 \"a`b\\\\c//d/*e\"}) uint32".toList, by decide⟩, by decide⟩
+
+example : VerbatimOK exStubCfg exPercentFile (render (printStubs exStubCfg exPercentFile)) :=
+  stub_text_verbatim _ _ exPercentFile_wf
+
+/-- the real printer's output for this file (after go/format: the struct is laid out over several lines) -/
+def exPercentGood : Txt :=
+  ("// Code generated by avo. DO NOT EDIT.\n\npackage p\n\n// f is 100% %d\n//\n//go:linkname f runtime.f%d\n" ++
+   "func f(s struct {\n\tLo uint32 \"dump:\\\"%08x\\\"\"\n\tHi uint32 \"a`b\\\\c//d/*e\"\n}) uint32\n").toList
+
+/-- what a printer that uses the declaration as a format string writes -/
+def exPercentBad : Txt :=
+  ("// Code generated by avo. DO NOT EDIT.\n\npackage p\n\n// f is 100% %d\n//\n//go:linkname f runtime.f%d\n" ++
+   "func f(s struct {\n\tLo uint32 \"dump:\\\"%!x(MISSING)\\\"\"\n\tHi uint32 \"a`b\\\\c//d/*e\"\n}) uint32\n").toList
+
+set_option maxRecDepth 16000 in
+example : acceptVerbatim exStubCfg exPercentFile exPercentGood = "ok" := by decide
+
+set_option maxRecDepth 16000 in
+/-- **format_string_corrupts_declaration** (witness): the corrupted file still
+passes `acceptStubs` (names, directives, package, constraints are intact) and is
+rejected by `acceptVerbatim`. -/
+theorem format_string_corrupts_declaration :
+    acceptStubs exStubCfg exPercentFile exPercentBad = "ok" ∧
+    acceptVerbatim exStubCfg exPercentFile exPercentBad = "bad-declaration-text" := by
+  constructor <;> decide
+
+example : squash "func f(s struct{a int; b int})".toList = squash "func f(s struct {\n\ta int\n\tb int\n})".toList := by decide
 
 end Avo.Print
